@@ -157,6 +157,12 @@ def atomic_specs():
     add("Instance(int)", "Instance", lambda: Instance(int), rf.ref_instance(int, True))
     add("Instance(PlainSub)", "Instance", lambda: Instance(PlainSub), rf.ref_instance(PlainSub, True))
     add("BaseInstance(Plain)", "Instance", lambda: BaseInstance(Plain), rf.ref_instance(Plain, True))
+    # a trait type called with new options is a documented way to derive a variant (clone)
+    add("Range(0.0,1.0)(2.0 default)", "Range.float", lambda: Range(0.0, 10.0)(2.0),
+        rf.ref_range_float(0.0, 10.0, False, False))
+    add("Int(5) clone", "Int", lambda: Int()(5), rf.ref_int)
+    add("String(1,3)('ab')", "String", lambda: String("a", minlen=1, maxlen=3)("ab"), rf.ref_string(1, 3, ""))
+    add("Enum(1,2,3)(2)", "Enum", lambda: Enum(1, 2, 3)(2), rf.ref_enum((1, 2, 3)))
     # classes given by (module-qualified) NAME are resolved lazily, at the first non-None valid
     # assignment: the class trait is shared by the lattice loop, so values judged after that
     # assignment see the resolved state (direct and nested uses)
